@@ -58,6 +58,11 @@ pub struct Case {
     /// tolerant oracle (set by the driver, not by the generator).
     #[serde(default)]
     pub low_limit: bool,
+    /// `sh -i`: the shell itself catches SIGINT and ignores SIGTERM and SIGQUIT;
+    /// these dispositions are the shell's own and are not handed down: a
+    /// subshell has them as the user's traps say (set by the driver)
+    #[serde(default)]
+    pub interactive: bool,
 }
 
 fn mutator(rng: &mut Rng, n: &mut u32) -> String {
@@ -181,7 +186,7 @@ pub fn generate(rng: &mut Rng, tier: Tier) -> Case {
             }
         }
     }
-    Case { tests, job_control, low_limit: false }
+    Case { tests, job_control, low_limit: false, interactive: false }
 }
 
 fn join(m: &[String]) -> String {
@@ -357,7 +362,7 @@ fn key_class(d: &str) -> &str {
 /// `lazy_tty`: the shell controls jobs and an earlier descriptor allocation
 /// failed, so its own close-on-exec descriptor for the terminal (>= 10) may be
 /// opened only now, by the parent, for this subshell.
-fn check_test(t: &Test, snaps: &BTreeMap<String, SnapMap>, tolerant: bool, job_control: bool, lazy_tty: bool) -> Option<Viol> {
+fn check_test(t: &Test, snaps: &BTreeMap<String, SnapMap>, tolerant: bool, job_control: bool, lazy_tty: bool, interactive: bool) -> Option<Viol> {
     let own_tty = |d: Vec<String>| -> Vec<String> {
         if !lazy_tty {
             return d;
@@ -447,8 +452,27 @@ fn check_test(t: &Test, snaps: &BTreeMap<String, SnapMap>, tolerant: bool, job_c
                 }
             }
         }
+        if interactive {
+            // the interactive shell's own handling of SIGINT (2), SIGQUIT (3)
+            // and SIGTERM (15) is not inherited: what the user's traps say is
+            for n in [2u32, 3, 15] {
+                let d = format!("disp:{n:03}");
+                want.remove(&d);
+                if want.get(&format!("trap:S{n:03}")).is_some_and(|a| a == "I") {
+                    want.insert(d, "Ignore".into());
+                }
+            }
+            // (SIGTSTP, SIGTTIN, SIGTTOU - 120..122 - are ignored by an interactive
+            // job-control shell; whether a subshell keeps that depends on whether
+            // it is a job of its own: the rule is C11's, not judged here)
+
+        }
+        let stoppers_open = interactive;
         let skip = |key: &str| -> bool {
             if key == "stack" || key == "jobs" {
+                return true;
+            }
+            if stoppers_open && matches!(key, "disp:120" | "disp:121" | "disp:122" | "trap:S120" | "trap:S121" | "trap:S122") {
                 return true;
             }
             match t.kind {
@@ -588,7 +612,8 @@ fn check_run_mode(c: &Case, obs: &Observed, tolerant: bool, main_may_exit: bool)
     for t in all {
         // (a subshell of a job-control shell does not control jobs itself)
         let jc = c.job_control && c.tests.iter().any(|top| top.id == t.id);
-        if let Some(v) = check_test(t, &snaps, tolerant, jc, main_may_exit && c.job_control) {
+        let top = c.tests.iter().any(|top| top.id == t.id);
+        if let Some(v) = check_test(t, &snaps, tolerant, jc, main_may_exit && c.job_control, c.interactive && top) {
             return Some(v);
         }
         // (only at the top level: what `trap` lists in a subshell of a subshell
@@ -600,6 +625,18 @@ fn check_run_mode(c: &Case, obs: &Observed, tolerant: bool, main_may_exit: bool)
                     .map(|(_, _, c)| String::from_utf8_lossy(c).trim_end_matches('\n').to_string())
             };
             let (tp, tc) = (text(format!("/work/tp{}", t.id)), text(format!("/work/tc{}", t.id)));
+            // (a command substitution of an interactive job-control shell goes on
+            // ignoring SIGTSTP, SIGTTIN and SIGTTOU, which its listing shows)
+            let tc = tc.map(|t| {
+                if c.interactive {
+                    t.lines()
+                        .filter(|l| !matches!(*l, "trap -- '' TSTP" | "trap -- '' TTIN" | "trap -- '' TTOU"))
+                        .collect::<Vec<_>>()
+                        .join("\n")
+                } else {
+                    t
+                }
+            });
             if let (Some(tp), Some(tc)) = (&tp, &tc)
                 && tp != tc
             {
@@ -649,7 +686,16 @@ fn spec_of(c: &Case) -> ScriptSpec {
     ScriptSpec {
         script: render(c),
         dash_c: true,
-        options: if c.job_control && !c.low_limit { vec!["-m".into()] } else { Vec::new() },
+        options: {
+            let mut o = Vec::new();
+            if c.job_control && !c.low_limit {
+                o.push("-m".to_string());
+            }
+            if c.interactive {
+                o.push("-i".to_string());
+            }
+            o
+        },
         files: vec![
             ("/work/e1".into(), b"e1-line1\ne1-line2\n".to_vec(), 0o644),
             ("/work/sub1/deep/keep".into(), b"".to_vec(), 0o644),
@@ -716,7 +762,7 @@ impl Prop for C08 {
         "exploration"
     }
     fn rule(&self) -> String {
-        "Seeded programs of 1-4 subshell tests (kinds: ( ), $( ), both elements of a pipeline, asynchronous list; nested up to depth 3). Around every subshell the `snap` probe serialises the complete shell state (`$?`, all variables with values and attributes, positional parameters, functions by printed body, aliases, all options, trap table, cwd, umask, NOFILE limit, descriptor table as fd -> open-file-description serial + flags, all signal dispositions, signal mask). Parent mutators before and child mutators inside are drawn from 34 state-changing commands (assignment, unset, export, readonly, function definition/removal, alias/unalias, set -o/+o, set --/shift, cd, umask, trap default/ignore/command/EXIT, exec N>file / N>&- / N<file / <file, ulimit -n). Oracles: parent snapshot before == after (for & also while the child runs and after wait), child-on-entry snapshot == parent's with exactly the documented differences (context stack: the parent's plus the subshell frames; a third of the tests run inside a loop body or an `if` condition), data written by children to shared files/pipes arrives (positive control). Schedules: FIFO baseline + seeded random/PCT/round-robin/FIFO-dev with preemption so the child runs between any two kernel calls of the parent. Distinct non-trivial = distinct (script hash, schedule hash, preemption count) with >= 2 processes. Added configurations: three-command pipelines; mutators that close descriptors (also 0), assign arrays and start asynchronous jobs; crash injection (children killed with SIGKILL from outside at seeded steps) with the leak oracle kept and every snapshot that was still taken checked. Further fault configurations, same tolerant oracle: one seeded descriptor allocation of the parent or a child fails with EMFILE; the whole script runs under `ulimit -n 10` (no descriptor >= 10 can be allocated: every save of a redirected descriptor and every attempt of a job-control shell to keep the terminal open fails, again and again), job control being switched on only afterwards.".into()
+        "Seeded programs of 1-4 subshell tests (kinds: ( ), $( ), both elements of a pipeline, asynchronous list; nested up to depth 3). Around every subshell the `snap` probe serialises the complete shell state (`$?`, all variables with values and attributes, positional parameters, functions by printed body, aliases, all options, trap table, cwd, umask, NOFILE limit, descriptor table as fd -> open-file-description serial + flags, all signal dispositions, signal mask). Parent mutators before and child mutators inside are drawn from 34 state-changing commands (assignment, unset, export, readonly, function definition/removal, alias/unalias, set -o/+o, set --/shift, cd, umask, trap default/ignore/command/EXIT, exec N>file / N>&- / N<file / <file, ulimit -n). Oracles: parent snapshot before == after (for & also while the child runs and after wait), child-on-entry snapshot == parent's with exactly the documented differences (context stack: the parent's plus the subshell frames; a third of the tests run inside a loop body or an `if` condition), data written by children to shared files/pipes arrives (positive control). Schedules: FIFO baseline + seeded random/PCT/round-robin/FIFO-dev with preemption so the child runs between any two kernel calls of the parent. Distinct non-trivial = distinct (script hash, schedule hash, preemption count) with >= 2 processes. Added configurations: three-command pipelines; mutators that close descriptors (also 0), assign arrays and start asynchronous jobs; crash injection (children killed with SIGKILL from outside at seeded steps) with the leak oracle kept and every snapshot that was still taken checked. Further fault configurations, same tolerant oracle: one seeded descriptor allocation of the parent or a child fails with EMFILE; the whole script runs under `ulimit -n 10` (no descriptor >= 10 can be allocated: every save of a redirected descriptor and every attempt of a job-control shell to keep the terminal open fails, again and again), job control being switched on only afterwards. Every program also runs once in an interactive shell (`-i`): SIGINT / SIGQUIT / SIGTERM are handled by the shell itself there, and a subshell must have them as the user's traps say.".into()
     }
     fn assumptions(&self) -> Vec<String> {
         vec![
@@ -812,6 +858,24 @@ impl Prop for C08 {
                     v.1 = format!("emfile:{}", v.1);
                     return Some(failure(&case, &cfg, &obs, v));
                 }
+            }
+        }
+        // the same program in an interactive shell
+        {
+            let mut ia = case.clone();
+            ia.interactive = true;
+            // (an interactive shell controls jobs unless told otherwise)
+            ia.job_control = true;
+            let cfg = draw_config(&mut rng, 1);
+            let (obs, v) = run_one(&ia, &cfg, Decider::record(Rng::stream(seed, 850, index)));
+            stats.note_run(case_hash ^ 0x1AC7, &obs.outcome, obs.faults_fired);
+            stats.add_counters(&obs.counters);
+            stats.digest(index, obs_digest(&obs));
+            stats.count("runs_in_an_interactive_shell", 1);
+            if let Some(mut v) = v {
+                stats.count("violating_runs", 1);
+                v.1 = format!("interactive:{}", v.1);
+                return Some(failure(&ia, &cfg, &obs, v));
             }
         }
         // a descriptor limit of 10: every allocation of an internal descriptor fails
